@@ -11,6 +11,7 @@ Bounded: numerical lattice over all branches (incl. the brentq-based concave bra
 combined functions), and grid-level checks.
 """
 import types
+from contracts.meshkit import Opts as _Opts  # noqa: E402
 
 import numpy
 import z3
@@ -37,7 +38,7 @@ def region():
     from hypnotoad.core import equilibrium as E
 
     r = object.__new__(E.EquilibriumRegion)
-    r.user_options = types.SimpleNamespace(sfunc_checktol=1.0e-13)
+    r.user_options = _Opts(sfunc_checktol=1.0e-13)
     return r
 
 
@@ -309,7 +310,7 @@ def make_combine_run(ranges, orth, vecs):
         pre, nyt = ctx.real("N_norm_prefactor"), ctx.real("ny_total")
         ctx.assume(And(ny >= 1, L > 0, pre > 0, nyt >= ny))
         r.ny_noguards, r.ny_total, r.psi, r.name = ny, nyt, None, "r"
-        r.user_options = types.SimpleNamespace(N_norm_prefactor=pre, sfunc_checktol=1.0e-13)
+        r.user_options = _Opts(N_norm_prefactor=pre, sfunc_checktol=1.0e-13)
         r.nonorthogonal_options = types.SimpleNamespace(nonorthogonal_radial_range_power=1.0)
         sp = {}
         for side in ("lower", "upper"):
@@ -383,7 +384,7 @@ def make_combine_range_run(side, ix):
         pre, nyt = ctx.real("N_norm_prefactor"), ctx.real("ny_total")
         ctx.assume(And(ny >= 1, L > 0, pre > 0, nyt >= ny))
         r.ny_noguards, r.ny_total, r.psi, r.name = ny, nyt, None, "r"
-        r.user_options = types.SimpleNamespace(N_norm_prefactor=pre, sfunc_checktol=1.0e-13)
+        r.user_options = _Opts(N_norm_prefactor=pre, sfunc_checktol=1.0e-13)
         r.nonorthogonal_options = types.SimpleNamespace(nonorthogonal_radial_range_power=1.0)
         sp = {}
         for sd in ("lower", "upper"):
@@ -497,7 +498,7 @@ def wiring_region(ctx, start_wall, end_wall):
     r.calls = []
     pre, ny_total = ctx.real("N_norm_prefactor"), ctx.real("ny_total")
     ctx.assume(And(pre > 0, ny_total >= 1))
-    r.user_options = types.SimpleNamespace(N_norm_prefactor=pre, orthogonal=True, poloidal_spacing_method="sqrt", poloidalfunction_diagnose=False, sfunc_checktol=1.0e-13)
+    r.user_options = _Opts(N_norm_prefactor=pre, orthogonal=True, poloidal_spacing_method="sqrt", poloidalfunction_diagnose=False, sfunc_checktol=1.0e-13)
     r.ny_total = ny_total
     r.spacings = {k: ctx.real("sp_" + k) for k in SPACING_KEYS}
     r.getSpacings = lambda: dict(r.spacings)
@@ -605,7 +606,7 @@ def make_regrid_run(el, eu, with_sfunc):
         c._startInd, c._endInd = 1, n0 - 2  # old guard points at both ends
         c._extend_lower = c._extend_upper = 0
         c._distance = None
-        c.user_options = types.SimpleNamespace(refine_width=1e-5, refine_atol=2e-8)
+        c.user_options = _Opts(refine_width=1e-5, refine_atol=2e-8)
         log = []
         c.temporaryExtend = lambda **kw: log.append(("temporaryExtend", kw))
         dfine = [0.0, 1.0, 2.0, 3.0, 4.0, 5.0, 6.0, 7.0, 8.0]
@@ -695,7 +696,7 @@ def make_region_regrid_run(start_ind, lower_conn, upper_conn):
         ny, myg = ctx.int("ny_noguards"), ctx.int("y_boundary_guards")
         ctx.assume(And(ny >= 1, myg >= 0))
         r.ny_noguards = ny
-        r.user_options = types.SimpleNamespace(y_boundary_guards=myg)
+        r.user_options = _Opts(y_boundary_guards=myg)
         r.connections = [dict(lower=("a", 0) if lower_conn else None, upper=("b", 0) if upper_conn else None)] * 2
         r.get_distance = lambda psi=None: d
         log = {}
